@@ -5,6 +5,9 @@ CONSTANTS
   MaxS = 3
   Scheme = "2w"
 INVARIANT EnumerationIsClosedForm
+INVARIANT LimitIsSelfingInvariant
+INVARIANT InbredIsHomozygous
+INVARIANT InbredTwoWayShare
 INVARIANT MarginalShares
 INVARIANT LocusSymmetric
 INVARIANT CompleteLinkage
